@@ -116,6 +116,33 @@ func (d certDesc) selfSigned() (*x509.Certificate, error) {
 	return x509.ParseCertificate(der)
 }
 
+func bytesOf(l []string) [][]byte {
+	if len(l) == 0 {
+		return nil
+	}
+	out := make([][]byte, len(l))
+	for i, v := range l {
+		out[i] = []byte(v)
+	}
+	return out
+}
+
+// canonCert replaces the subject of a description by what a parser reads back from the certificate built from
+// it: DER encodes a multi-valued attribute as a SET OF, whose members are sorted by their encoding, so the order
+// of the values of one attribute is not the order they were written in. Descriptions in op lines are canonical
+// (the implementation op checks it), so that model and implementation talk about the same parsed subject.
+func canonCert(d certDesc) certDesc {
+	c, err := d.selfSigned()
+	if err != nil {
+		panic("harness: certificate cannot be built: " + err.Error())
+	}
+	n := c.Subject
+	d.C, d.ST, d.L, d.Street, d.Postal, d.O, d.OU = bytesOf(n.Country), bytesOf(n.Province), bytesOf(n.Locality), bytesOf(n.StreetAddress), bytesOf(n.PostalCode), bytesOf(n.Organization), bytesOf(n.OrganizationalUnit)
+	d.CN, d.SN = []byte(n.CommonName), []byte(n.SerialNumber)
+	d.Serial = c.SerialNumber.Bytes()
+	return d
+}
+
 // authority is the harness' own CA (ed25519 key from a seed).
 type authority struct {
 	cert *x509.Certificate
@@ -229,7 +256,7 @@ func randCert(rd *core.Rand) certDesc {
 	if rd.Chance(10) {
 		d.SN = dnValue(rd)
 	}
-	return d
+	return canonCert(d)
 }
 
 func cloneCert(d certDesc) certDesc {
@@ -296,6 +323,9 @@ func certFamily(rd *core.Rand) (fam []certDesc, kinds []string) {
 			*d = certDesc{Serial: randSerial(rd), KeySeed: d.KeySeed, CN: d.CN}
 		})
 	}
+	for i := range fam {
+		fam[i] = canonCert(fam[i])
+	}
 	return
 }
 
@@ -327,9 +357,13 @@ func registerTLSIdentityOps() {
 				a = a[1:]
 			} else {
 				var err error
-				cert, err = parseCertDesc(a).selfSigned()
+				d := parseCertDesc(a)
+				cert, err = d.selfSigned()
 				if err != nil {
 					panic("harness: certificate cannot be built: " + err.Error())
+				}
+				if canonCert(d).tokens() != d.tokens() {
+					panic("harness: certificate description is not what a parser reads back from the certificate")
 				}
 				a = a[certTokens:]
 			}
@@ -391,7 +425,7 @@ func identityCases(r *core.Run) {
 	for w := 0; w < r.N(40, 1500); w++ {
 		fam, kinds := certFamily(rd)
 		if w%7 == 3 { // a certificate without any subject attribute: no identity in DN mode
-			fam = append(fam, certDesc{Serial: randSerial(rd), KeySeed: rd.Bytes(8)})
+			fam = append(fam, canonCert(certDesc{Serial: randSerial(rd), KeySeed: rd.Bytes(8)}))
 			kinds = append(kinds, "empty-subject")
 		}
 		if w%5 == 2 { // unrelated certificates
